@@ -4,6 +4,7 @@ import (
 	"fmt"
 	"io"
 	"net"
+	"os"
 	"runtime"
 	"strings"
 	"sync"
@@ -453,6 +454,27 @@ func (p *player) step(s ScStep) {
 				p.rec.Put(M{"e": "Ambiguous", "what": "feed to unknown peer", "ep": s.Ep, "peer": s.Peer})
 			}
 		}
+	case "feed_pack":
+		// several items in ONE transport write (one UDP datagram carrying many frames)
+		var all []byte
+		for _, bi := range s.Items {
+			b := p.itemBytes(bi.Item)
+			p.rec.Put(M{"e": "Feed", "ep": s.Ep, "peer": s.Peer, "kind": bi.Item.Kind, "tag": bi.Item.Tag, "n": len(b),
+				"sys": bi.Item.Sys, "comp": bi.Item.Comp, "autopilot": bi.Item.Autopilot, "t": p.ms()})
+			all = append(all, b...)
+		}
+		if ctl := p.ctl(s.Ep); ctl != nil {
+			ctl.feed([][]byte{all})
+		} else {
+			p.mu.Lock()
+			conn := p.peers[[2]int{s.Ep, s.Peer}]
+			p.mu.Unlock()
+			if conn != nil {
+				conn.Write(all) //nolint:errcheck
+			} else {
+				p.rec.Put(M{"e": "Ambiguous", "what": "feed to unknown peer", "ep": s.Ep, "peer": s.Peer})
+			}
+		}
 	case "burst":
 		per := map[int][][]byte{}
 		for _, bi := range s.Items {
@@ -498,6 +520,20 @@ func (p *player) step(s ScStep) {
 	case "twrite_mode":
 		p.rec.Put(M{"e": "TMode", "ep": s.Ep, "mode": s.Mode, "at": s.At, "t": p.ms()})
 		if ctl := p.ctl(s.Ep); ctl != nil {
+			ctl.mu.Lock()
+			switch s.Err {
+			case "deadline":
+				ctl.failErr = os.ErrDeadlineExceeded
+			case "eof":
+				ctl.failErr = io.ErrUnexpectedEOF
+			case "closed_pipe":
+				ctl.failErr = io.ErrClosedPipe
+			case "net_timeout":
+				ctl.failErr = &net.OpError{Op: "write", Net: "tcp", Err: os.ErrDeadlineExceeded}
+			default:
+				ctl.failErr = nil
+			}
+			ctl.mu.Unlock()
 			ctl.setMode(s.Mode, s.At)
 		}
 	case "consumer":
